@@ -48,7 +48,7 @@ class ContractInterp(Interp):
         rt = self.tenv.parse(rt)
         ropt = rt[0] == "opt"
         rti = rt[1] if ropt else rt
-        f = z3.Function(n, *[sort_of_type(a) for a in ats], sort_of_type(rti))
+        f = None if rti[0] == "arr" else z3.Function(n, *[sort_of_type(a) for a in ats], sort_of_type(rti))
         ts = []
         for a, t in zip(args, ats):
             if isinstance(a, VOpt):
@@ -68,6 +68,21 @@ class ContractInterp(Interp):
             if isinstance(a, VObj) and not a.symbolic:
                 raise Unsupported(f"heap object passed to uninterpreted function {n}")
             ts.append(term_of(a))
+        if rti[0] == "arr":
+            from .tys import elem_type
+            et = elem_type(rti[1])
+            fl = z3.Function(n + ".len", *[sort_of_type(a) for a in ats], z3.IntSort())
+            fa = z3.Function(n + ".arr", *[sort_of_type(a) for a in ats], z3.ArraySort(z3.IntSort(), sort_of_type(et)))
+            ref = self.st.new_ref()
+            self.st.heap[(ref, "len")] = fl(*ts)
+            self.st.heap[(ref, "arr")] = fa(*ts)
+            self.st.assume(fl(*ts) >= 0)
+            return VArr(ref, et)
+        if rti[0] == "seq":
+            from .tys import elem_type
+            ref = self.st.new_ref()
+            self.st.heap[(ref, "seq")] = f(*ts)
+            return VSeq(ref, elem_type(rti[1]))
         res = wrap(rti, f(*ts))
         if ropt:
             fn = z3.Function(n + "?none", *[sort_of_type(a) for a in ats], z3.BoolSort())
@@ -342,6 +357,13 @@ class ContractInterp(Interp):
             st.obligations.append(Obligation(name, "failed", detail=f"counterexample: {md}", model=md, solver=solver,
                                              t=dt, path=list(st.taken), smt2=smt2, where=where))
             return False
+        if smt2:
+            import os as _os
+            import re as _re
+            d = _os.path.join(_os.path.dirname(_os.path.dirname(_os.path.abspath(__file__))), "out", "undecided")
+            _os.makedirs(d, exist_ok=True)
+            with open(_os.path.join(d, _re.sub(r"[^A-Za-z0-9_.-]+", "_", name)[:80] + f".{len(st.taken)}.smt2"), "w") as fh:
+                fh.write(smt2)
         st.obligations.append(Obligation(name, "undecided", detail="solver returned unknown", solver=solver, t=dt,
                                          path=list(st.taken), smt2=smt2, where=where))
         return False
